@@ -75,6 +75,7 @@ func (k SettlementKeeper) deleteUTXR(ctx sdk.Context, tenantId, utxrId uint64) e
 	k.cdc.MustUnmarshal(bz, &utxr)
 
 	store.Delete(types.UTXRStoreKey(tenantId, utxrId))
+	store.Delete(types.UTXRStoreByRequestIdKey(tenantId, utxr.RequestId))
 	return nil
 }
 
